@@ -224,6 +224,63 @@ fn record(cell: &Cell, rep: &mut Report) {
     for (sig, msg) in check(&run) {
         rep.violation(format!("stack:{}", sig), format!("{}: {}", cell.to_json(), msg), cell.to_json());
     }
+    unreadable_first_copy_cases(cell, &run, rep);
+}
+
+/// Lookup order under a failure: when the first level holding the key cannot be read (EACCES, EIO,
+/// EMFILE on opening its copy), the lookup fails; it does not resolve to a copy further down the
+/// stack (nor to a miss), and nothing is promoted or populated on the strength of that later copy.
+fn unreadable_first_copy_cases(cell: &Cell, run: &CellRun, rep: &mut Report) {
+    let m = model(cell);
+    let lookup = matches!(cell.op, MOp::Get | MOp::Ensure | MOp::Gou(_)) && cell.pop == 0;
+    let first = match m.first {
+        Some(f) if lookup => f,
+        _ => return,
+    };
+    if !cell.contents.iter().enumerate().any(|(l, &c)| l > first && c != 0) {
+        return; // no later copy to fall through to
+    }
+    let w = if cell.has_writer() { 1 } else { 0 };
+    let dirname = if first < w { "w".to_string() } else { format!("r{}", first - w) };
+    let rel = run.copies[first].as_ref().unwrap().0.clone();
+    for errno in [libc::EACCES, libc::EIO, libc::EMFILE] {
+        let ctl = std::sync::Arc::new(crate::props::c14::FailOpenOf {
+            suffix: format!("/{}/{}", dirname, rel),
+            errno,
+            done: std::sync::atomic::AtomicBool::new(false),
+        });
+        CONTROLLER.with(|c| *c.borrow_mut() = Some(ctl.clone() as std::sync::Arc<dyn crate::shim::Controller>));
+        let r2 = run_cell(cell);
+        CONTROLLER.with(|c| *c.borrow_mut() = None);
+        rep.evaluations += 1;
+        rep.states += 1;
+        rep.traces += 1;
+        rep.transitions += r2.trace.len() as u64;
+        rep.count("unreadable_first_copy_cases", 1);
+        if !ctl.done.load(std::sync::atomic::Ordering::SeqCst) {
+            continue;
+        }
+        let mut bad: Vec<(String, String)> = Vec::new();
+        if !r2.outcome.res.is_err() {
+            bad.push(("fell-through-unreadable-level".into(), format!("returned {} instead of the error", r2.outcome.res.label())));
+        }
+        if r2.outcome.populate_calls != 0 || !r2.outcome.judge.is_empty() {
+            bad.push(("fell-through-unreadable-level".into(), format!("judge consulted {} times, populate called {} times", r2.outcome.judge.len(), r2.outcome.populate_calls)));
+        }
+        for (b, a) in r2.before.iter().zip(r2.after.iter()) {
+            let d = world::diff(b, a, true);
+            if !d.is_empty() {
+                bad.push(("fell-through-unreadable-level".into(), format!("a cache directory was modified: {:?}", d)));
+            }
+        }
+        if let Some((_, msg)) = bad.first() {
+            rep.violation(
+                "stack:fell-through-unreadable-level",
+                format!("{}: opening the first copy (level {}) failed with errno {}: {}", cell.to_json(), first, errno, msg),
+                serde_json::json!({"cell": cell.to_json(), "unreadable_level": first, "errno": errno}),
+            );
+        }
+    }
 }
 
 /// Replace (and a miss) must store and return the caller's own new value even when another writer
@@ -286,7 +343,8 @@ pub fn run(_tier: Tier, shard: Shard, rep: &mut Report) {
     rep.rule = "full matrix: write side {none, plain, sharded(3)} x read-only list {[], [p], [s], [p,p], [p,s], [s,p], [s,s]} x \
         per-level content {nothing, A, B} (sharded levels: value in the primary or the secondary shard) x operation {get, touch, \
         set, put, set_temp_file, put_temp_file, ensure, get_or_update x {Accept, Promote, Replace}} x populate {value, NotFound, other error}, no \
-        checker; oracle = stack-resolution reference model on result, judge arguments, populate arguments, per-level before/after \
+        checker (and, for every lookup cell with a later copy, the first copy's open failing with EACCES/EIO/EMFILE: the lookup must fail \
+        rather than resolve further down the stack); oracle = stack-resolution reference model on result, judge arguments, populate arguments, per-level before/after \
         snapshots, trace (no level after the first hit is touched), temp-file and source residue. Plus: get_or_update with Replace racing with another writer of the same key (all \
         schedules with <= 2 preemptions): it must return the value it populated. Non-trivial = >= 2 levels and at least one copy present."
         .into();
@@ -312,6 +370,10 @@ pub fn replay(case: &Value, rep: &mut Report) {
         let progs: Vec<crate::sched::Program> = concurrent_programs().into_iter().map(|p| p.0).collect();
         let mut chk = |x: &crate::sched::Execution| concurrent_check(x);
         crate::props::e1::replay_case("C13", &progs, case, rep, &|| crate::sched::RunOpts::default(), &mut chk);
+        return;
+    }
+    if case.get("cell").is_some() {
+        record(&Cell::from_json(&case["cell"]), rep);
         return;
     }
     record(&Cell::from_json(case), rep);
